@@ -425,6 +425,91 @@ func checkC17(c *Ctx) {
 		c.Check(okFlag, "C17.4", "Send consults the stop flag before feeding the decoder", p.Pos(send.Pos()), "the decoder is fed only on the not-stopped edge", "messages are fed to the decoder although listening was stopped")
 	}
 
+	// ---------------- C17.4d: every successful Listen installs the NEW callback (all drivers.In implementations)
+	if inI := p.IfaceType("drivers", "In"); inI != nil {
+		for _, T := range p.Implementers(inI) {
+			m := p.MethodOf(T, "Listen")
+			if m == nil || m.Blocks == nil || len(m.Params) < 2 {
+				continue
+			}
+			c.Fn(FuncName(m))
+			onMsg := m.Params[1]
+			// forward slice of values that carry the callback
+			carry := map[ssa.Value]bool{onMsg: true}
+			changed := true
+			for changed {
+				changed = false
+				for _, b := range m.Blocks {
+					for _, in := range b.Instrs {
+						v, isVal := in.(ssa.Value)
+						if !isVal || carry[v] {
+							continue
+						}
+						switch x := in.(type) {
+						case *ssa.MakeClosure:
+							for _, bd := range x.Bindings {
+								if carry[bd] {
+									carry[v] = true
+									changed = true
+								}
+							}
+						case *ssa.Call:
+							for _, a := range x.Common().Args {
+								if carry[a] {
+									carry[v] = true
+									changed = true
+								}
+							}
+						case *ssa.MakeInterface:
+							if carry[x.X] {
+								carry[v] = true
+								changed = true
+							}
+						case *ssa.Phi:
+							for _, e := range x.Edges {
+								if carry[e] {
+									carry[v] = true
+									changed = true
+								}
+							}
+						}
+					}
+				}
+				// a local cell holding the callback (parameter captured by a closure)
+				for _, b := range m.Blocks {
+					for _, in := range b.Instrs {
+						if st, ok := in.(*ssa.Store); ok && carry[st.Val] {
+							if al, ok := st.Addr.(*ssa.Alloc); ok && !carry[al] {
+								carry[al] = true
+								changed = true
+							}
+						}
+					}
+				}
+			}
+			installs := map[ssa.Instruction]bool{}
+			for _, b := range m.Blocks {
+				for _, in := range b.Instrs {
+					if st, ok := in.(*ssa.Store); ok && carry[st.Val] {
+						if _, isField := st.Addr.(*ssa.FieldAddr); isField {
+							installs[st] = true
+						}
+					}
+				}
+			}
+			ok := len(installs) > 0
+			for _, r := range allReturns(m) {
+				if !isNilConst(retVal(r, len(r.Results)-1)) {
+					continue
+				}
+				if canReachFromEntryAvoiding(m, r, installs) {
+					ok = false
+				}
+			}
+			c.Check(ok, "C17.4", namedOrString(T)+".Listen installs the new callback on every successful path", p.Pos(m.Pos()), "a value carrying the onMsg parameter is stored into the port's state before every successful return", "Listen can succeed without installing the new callback (e.g. it reuses the decoder of a previous Listen): messages keep going to the old listener, whose stop function has already returned")
+		}
+	}
+
 	// ---------------- C17.5 siblings
 	portI := p.IfaceType("drivers", "Port")
 	outI := p.IfaceType("drivers", "Out")
